@@ -90,7 +90,7 @@ namespace c03
     c.count("entry_free_operand_cases");
     if(st == 0) { c.count("entry_free_operand_handled_correctly"); return; }
     if(st == 1003) { body(); return; }
-    if(st < 1000) { c.count("entry_free_operand_crashes"); fail_throttled(c, efkey, "operation died with signal " + std::to_string(st) + " (null row pointer of the entry-free representation is dereferenced)"); return; }
+    if(st < 1000) { c.count("entry_free_operand_crashes"); fail_throttled(c, efkey, "operation died with signal " + std::to_string(st) + " (the entry-free representation has no arrays: null row pointer dereferenced or val() throws)"); return; }
     c.fail(efkey + " unexpected-exit", "forked operation exited with code " + std::to_string(st - 1000));
   }
 
@@ -126,7 +126,7 @@ namespace c03
     c.count("required_abort_cases");
     if(st == SIGABRT) return;
     if(st == 0) { c.fail(key + " no-abort", "incomplete output pattern with allow_incomplete=false: the operation returned instead of aborting (silently wrong values)"); return; }
-    if(entry_free && st < 1000) { c.count("entry_free_operand_crashes"); c.fail(efkey, "operation died with signal " + std::to_string(st) + " instead of the required abort (null row pointer of the entry-free representation)"); return; }
+    if(entry_free && st < 1000) { c.count("entry_free_operand_crashes"); c.fail(efkey, "operation died with signal " + std::to_string(st) + " instead of the required abort (the entry-free representation has no arrays)"); return; }
     c.fail(key + " wrong-death", "expected SIGABRT, got status " + std::to_string(st));
   }
 }
